@@ -21,7 +21,7 @@ use secp256k1::Secp256k1;
 pub struct C14;
 
 #[derive(Clone, Debug, PartialEq, Eq)]
-enum Op {
+pub enum Op {
     Update(usize),
     /// n-th key of input i
     AddSig(usize, usize),
@@ -35,27 +35,27 @@ enum Op {
 }
 
 impl Op {
-    fn is_add(&self) -> bool { matches!(self, Op::Update(_) | Op::AddSig(..) | Op::AddPreimages(_) | Op::AddNoise(_)) }
+    pub fn is_add(&self) -> bool { matches!(self, Op::Update(_) | Op::AddSig(..) | Op::AddPreimages(_) | Op::AddNoise(_)) }
 }
 
-struct Setup {
-    descs: Vec<MDesc>,
-    libs: Vec<Desc>,
-    sats: Vec<WorldSat>,
+pub struct Setup {
+    pub descs: Vec<MDesc>,
+    pub libs: Vec<Desc>,
+    pub sats: Vec<WorldSat>,
     /// per input: list of (kind, key bytes / (xonly, leaf)) signature slots
-    slots: Vec<Vec<Slot>>,
-    psbt: Psbt,
-    prevouts: Vec<TxOut>,
+    pub slots: Vec<Vec<Slot>>,
+    pub psbt: Psbt,
+    pub prevouts: Vec<TxOut>,
 }
 
 #[derive(Clone, Debug)]
-enum Slot {
+pub enum Slot {
     Ecdsa(Vec<u8>),
     TapKey,
     TapLeaf([u8; 32], [u8; 32]),
 }
 
-fn build(src: &mut Src) -> Result<Option<Setup>, Failure> {
+pub fn build(src: &mut Src) -> Result<Option<Setup>, Failure> {
     let n_in = src.range(1, 3);
     let mut descs = Vec::new();
     let mut libs = Vec::new();
@@ -162,7 +162,7 @@ fn build(src: &mut Src) -> Result<Option<Setup>, Failure> {
 
 fn is_final(p: &Psbt, i: usize) -> bool { p.inputs[i].final_script_sig.is_some() || p.inputs[i].final_script_witness.is_some() }
 
-fn gen_ops(src: &mut Src, s: &Setup) -> Vec<Op> {
+pub fn gen_ops(src: &mut Src, s: &Setup) -> Vec<Op> {
     let n = s.descs.len();
     let len = src.range(3, 14);
     let mut ops = Vec::new();
@@ -198,7 +198,7 @@ fn gen_ops(src: &mut Src, s: &Setup) -> Vec<Op> {
     ops
 }
 
-fn apply_add(p: &mut Psbt, s: &Setup, op: &Op) -> Result<(), Failure> {
+pub fn apply_add(p: &mut Psbt, s: &Setup, op: &Op) -> Result<(), Failure> {
     match op {
         Op::Update(i) => {
             if is_final(p, *i) {
